@@ -27,7 +27,7 @@ CLAIMED = {
         "design_ref": "DESIGN.md section 4, C11", "note": _N + "; gorilla *websocket.Conn methods are name-intercepted stubs under the engine, native replays use a real loopback connection; unbounded scripts, duplicate ids and read-deadline timing are outside the bound", "technique": _T,
     },
     "C12": {
-        "text": "bounded: multipartResponseAggregator over 1 + 0..3 payloads with a symbolic flush tick at every point, bytes parsed by an independent multipart parser; SSE.Do with 0..2 payloads and a keep-alive ticker firing at any scheduling point with every write a preemption point: event grammar, exactly-once, no overlapping writes, race check",
+        "text": "bounded: multipartResponseAggregator over 1 + 0..3 payloads with a symbolic flush tick at every point, bytes parsed by an independent multipart parser; SSE.Do with 0..2 payloads and a keep-alive ticker firing at any scheduling point with every Write and Flush of the ResponseWriter fake a preemption point and conflicting accesses, lock hand-off at Unlock: event grammar, exactly-once, no overlapping use, race check (natively a slow client)",
         "design_ref": "DESIGN.md section 4, C12", "note": _N + "; ticker modelled as a daemon task; TCP chunking and client disconnects are outside the bound", "technique": _T + "; schedule exploration with explicit preemption points",
     },
     "C13": {
@@ -55,11 +55,11 @@ CLAIMED = {
         "design_ref": "DESIGN.md section 4, C03", "note": _N, "technique": _T,
     },
     "C07": {
-        "text": "one-step induction on the POST parameter pool (arbitrary body x executor outcome incl. panics; pooled object all-zero again) plus all two-request histories over an 11-body corpus; other transports allocate per request (checked by the same harness family as C09)",
+        "text": "one-step induction on the POST parameter pool (arbitrary body x executor outcome incl. panics; pooled object all-zero again) plus all two-request histories over an 11-body corpus; other transports allocate per request (checked by the same harness family as C09); server/executor/transport graph and package globals frozen across a request; the same text under different variables against one executor with a query cache, sequentially (cached document frozen) and concurrently on every explored schedule with a happens-before race check",
         "design_ref": "DESIGN.md section 4, C07", "note": _N + "; sync.Pool modelled as LIFO-or-New", "technique": _T,
     },
     "C08": {
-        "text": "bounded/full width: writeQuotedString, MarshalString, MarshalID on every byte string up to length 3 (quick) / 4 (thorough) against an independent RFC 8259 + RFC 3629 oracle",
+        "text": "bounded/full width: writeQuotedString, MarshalString, MarshalID on every byte string up to length 3 (quick) / 4 (thorough) against an independent RFC 8259 + RFC 3629 oracle; integer bindings on a boundary grid; every float64 through the Float bindings and back (digit generation of strconv/fmt is a documented-contract stub, counterexamples replayed on the real formatter); FieldSet/Array compositions of depth 2 (3); Boolean/Time/UUID/Map/Any/Omittable",
         "design_ref": "DESIGN.md section 4, C08", "note": _N, "technique": _T,
     },
     "C09": {
@@ -71,11 +71,11 @@ CLAIMED = {
         "design_ref": "DESIGN.md section 4, C10", "note": _N, "technique": _T,
     },
     "C15": {
-        "text": "one-step induction: from every invariant-satisfying cache state (key = SHA-256(text)), one request over 3 texts x 11 extension shapes keeps the invariant, resolves hash-only requests to matching text or NotFound, rejects mismatches without registering; every explored path is also replayed natively",
+        "text": "one-step induction: from every invariant-satisfying cache state (key = SHA-256(text)), one request over 3 texts x 11 extension shapes keeps the invariant, resolves hash-only requests to matching text or NotFound, rejects mismatches without registering; explicit histories of 2 (4) requests, and of 2 (3) HTTP requests through one Server incl. undecodable bodies; every explored path is also replayed natively",
         "design_ref": "DESIGN.md section 4, C15", "note": _N + "; SHA-256 computed natively on concrete texts, mapstructure.Decode is a contract model validated by the native replays", "technique": _T,
     },
     "C14": {
-        "text": "safeAdd is decided for all 2^128 operand pairs (bit-vector SMT, no bound) against an independent saturating reference; complexity walk and limit gate bounded as listed in the evidence",
+        "text": "safeAdd is decided for all 2^128 operand pairs (bit-vector SMT, no bound) against an independent saturating reference; complexity walk and limit gate bounded as listed in the evidence; the gate end to end through executor.CreateOperationContext with argument-dependent custom costs and arguments supplied by variables",
         "design_ref": "DESIGN.md section 4, C14",
         "note": "trusts go/ssa, the engine's instruction semantics (validated by native replay of sampled paths), z3",
         "technique": "symbolic execution of go/ssa + SMT (z3 bit-vectors), counterexample replay on the native build",
